@@ -47,6 +47,14 @@ theorem p_filterItem {pred : EvalM Value} (hp : E.P pred) (v : Value) : E.P (fil
     · exact p_bracket E _ (p_bracket E _ ht)
   · exact p_bracket E _ ht
 
+theorem p_itemScoped {pred : EvalM Value} (hp : E.P pred) (v : Value) : E.P (itemScoped pred v) := by
+  unfold itemScoped
+  split
+  · split
+    · exact p_bracket E _ hp
+    · exact p_bracket E _ (p_bracket E _ hp)
+  · exact p_bracket E _ hp
+
 theorem p_filterLoop {pred : EvalM Value} (hp : E.P pred) (vs : List Value) :
     E.P (filterLoop pred vs) := by
   induction vs with
@@ -63,7 +71,7 @@ theorem p_forLoop {body : EvalM Value} (hb : E.P body) (cs : List Ctx) (results 
     unfold forLoop
     exact E.bind (p_bracket E _ hb) (fun _ => ih _)
 
-theorem p_quantLoop {sat : EvalM Value} (hs : E.P sat) (isSome : Bool) (cs : List Ctx) (acc : Bool) :
+theorem p_quantLoop {sat : EvalM Value} (hs : E.P sat) (isSome : Bool) (cs : List Ctx) (acc : Bool × Bool) :
     E.P (quantLoop isSome sat cs acc) := by
   induction cs generalizing acc with
   | nil => exact E.pure _
@@ -83,8 +91,10 @@ theorem p_invokePositional (env : Env) (hc : ∀ b, E.Q (env.call b))
   split
   · exact E.lift _ (hp _ _)
   · split
-    · exact p_callFunction E env hc _ _ _
     · exact E.pure _
+    · split
+      · exact p_callFunction E env hc _ _ _
+      · exact E.pure _
   · exact E.pure _
 
 theorem p_invokeNamed (env : Env) (hc : ∀ b, E.Q (env.call b))
@@ -97,8 +107,10 @@ theorem p_invokeNamed (env : Env) (hc : ∀ b, E.Q (env.call b))
     · exact E.pure _
   · split
     · split
-      · exact p_callFunction E env hc _ _ _
       · exact E.pure _
+      · split
+        · exact p_callFunction E env hc _ _ _
+        · exact E.pure _
     · exact p_callFunction E env hc _ _ _
   · exact E.pure _
 
@@ -157,7 +169,7 @@ theorem p_evalStep (E : EvalPred) (env : Env) (hc : ∀ b, E.Q (env.call b))
     repeat p_step
   | .context es => by
     simp only [evalStep]
-    exact E.pushPop [] Value.ctx (q_evalContextEntries E env hc hIt hBp hBn es [])
+    exact E.pushPop [] ctxResult (q_evalContextEntries E env hc hIt hBp hBn es [])
   | .filter a b => by
     have ha := p_evalStep E env hc hIt hBp hBn a
     have hb := p_evalStep E env hc hIt hBp hBn b
@@ -172,7 +184,7 @@ theorem p_evalStep (E : EvalPred) (env : Env) (hc : ∀ b, E.Q (env.call b))
       intro r
       split <;> exact E.pure _
     · split
-      · exact E.bind hb (fun _ => E.pure _)
+      · exact E.bind (p_itemScoped E hb _) (fun _ => E.pure _)
       · exact E.pure _
   | .for (.iterationContexts items) body => by
     have hb := p_evalStep E env hc hIt hBp hBn body
@@ -190,6 +202,7 @@ theorem p_evalStep (E : EvalPred) (env : Env) (hc : ∀ b, E.Q (env.call b))
     intro st
     split
     · exact E.pure _
+    · exact E.pure _
     · exact E.bind ((E.lift _ (hIt _))) (fun _ => E.bind (p_quantLoop E hb _ _ _) (fun _ => E.pure _))
   | .some (.quantifiedContexts items) (.satisfies body) => by
     have hb := p_evalStep E env hc hIt hBp hBn body
@@ -197,6 +210,7 @@ theorem p_evalStep (E : EvalPred) (env : Env) (hc : ∀ b, E.Q (env.call b))
     apply E.bind (p_evalQuantified E env hc hIt hBp hBn items 0)
     intro st
     split
+    · exact E.pure _
     · exact E.pure _
     · exact E.bind ((E.lift _ (hIt _))) (fun _ => E.bind (p_quantLoop E hb _ _ _) (fun _ => E.pure _))
   | .functionInvocation f (.positionalParameters xs) => by
@@ -246,6 +260,7 @@ theorem p_evalStep (E : EvalPred) (env : Env) (hc : ∀ b, E.Q (env.call b))
       exact E.bind (p_evalQuantified E env hc hIt hBp hBn items 0) (fun st => by
         split
         · exact E.pure _
+        · exact E.pure _
         · exact E.bind ((E.lift _ (hIt _))) (fun _ => E.bind (p_quantLoop E (p_evalStep E env hc hIt hBp hBn body) _ _ _) (fun _ => E.pure _)))
     · exact E.pure _
   | .some ctxs sat => by
@@ -254,6 +269,7 @@ theorem p_evalStep (E : EvalPred) (env : Env) (hc : ∀ b, E.Q (env.call b))
     · rename_i items body
       exact E.bind (p_evalQuantified E env hc hIt hBp hBn items 0) (fun st => by
         split
+        · exact E.pure _
         · exact E.pure _
         · exact E.bind ((E.lift _ (hIt _))) (fun _ => E.bind (p_quantLoop E (p_evalStep E env hc hIt hBp hBn body) _ _ _) (fun _ => E.pure _)))
     · exact E.pure _
@@ -291,7 +307,9 @@ theorem q_evalContextEntries (E : EvalPred) (env : Env) (hc : ∀ b, E.Q (env.ca
     apply E.qBind (E.qOfP (p_evalStep E env hc hIt hBp hBn e))
     intro v
     split
-    · exact E.qBind (E.qSetEntry _ _) (fun _ => q_evalContextEntries E env hc hIt hBp hBn es _)
+    · split
+      · exact E.qPure _
+      · exact E.qBind (E.qSetEntry _ _) (fun _ => q_evalContextEntries E env hc hIt hBp hBn es _)
     · exact q_evalContextEntries E env hc hIt hBp hBn es _
 theorem p_evalQuantified (E : EvalPred) (env : Env) (hc : ∀ b, E.Q (env.call b))
     (hIt : ∀ st, E.Good (env.iter st)) (hBp : ∀ n a, E.Good (env.bifPos n a)) (hBn : ∀ n a, E.Good (env.bifNamed n a)) :
@@ -303,6 +321,7 @@ theorem p_evalQuantified (E : EvalPred) (env : Env) (hc : ∀ b, E.Q (env.call b
     intro v
     split
     · exact E.pure _
+    · exact E.pure _
     · exact E.bind (p_evalQuantified E env hc hIt hBp hBn items _) (fun _ => E.pure _)
   | item :: items, pos => by
     have ih := p_evalQuantified E env hc hIt hBp hBn items (pos + 1)
@@ -312,6 +331,7 @@ theorem p_evalQuantified (E : EvalPred) (env : Env) (hc : ∀ b, E.Q (env.call b
       apply E.bind (p_evalStep E env hc hIt hBp hBn e)
       intro v
       split
+      · exact E.pure _
       · exact E.pure _
       · exact E.bind ih (fun _ => E.pure _)
     · exact ih
@@ -324,6 +344,7 @@ theorem p_evalIteration (E : EvalPred) (env : Env) (hc : ∀ b, E.Q (env.call b)
     apply E.bind (p_evalStep E env hc hIt hBp hBn e)
     intro v
     split
+    · exact E.pure _
     · exact E.pure _
     · exact E.bind (p_evalIteration E env hc hIt hBp hBn items _) (fun _ => E.pure _)
   | .iterationContextRange (.name n) lo hi :: items, pos => by
@@ -340,6 +361,7 @@ theorem p_evalIteration (E : EvalPred) (env : Env) (hc : ∀ b, E.Q (env.call b)
       apply E.bind (p_evalStep E env hc hIt hBp hBn e)
       intro v
       split
+      · exact E.pure _
       · exact E.pure _
       · exact E.bind ih (fun _ => E.pure _)
     · rename_i n lo hi
